@@ -134,7 +134,7 @@ pub struct Sim<P: Protocol> {
     pub trace: Option<Vec<String>>,
     pub flush_on_drop: bool,
     /// wire id of a payload datagram -> (source, destination) address of the frame it carries, dissected by the harness
-    pub frames: HashMap<u64, (Vec<u8>, Vec<u8>)>,
+    pub frames: HashMap<u64, (Vec<u8>, Vec<u8>, Vec<u8>)>,
     /// public key text -> label of a key (filled by the drivers that generate keys)
     pub max_trace: usize,
 }
@@ -576,12 +576,12 @@ impl<P: Protocol> Sim<P> {
             let first = bytes.first().map(|b| *b as i64).unwrap_or(-1);
             // the addresses of the frame inside a payload datagram, as the harness knows them from the interface read
             // that caused the datagram
-            let (fk, fsrc, fdst) = match self.frames.get(&oid) {
-                Some((a, b)) => (true, a.clone(), b.clone()),
-                None => (false, vec![], vec![]),
+            let (fk, fsrc, fdst, same) = match self.frames.get(&oid) {
+                Some((a, b, f)) => (true, a.clone(), b.clone(), res.iface.len() == 1 && res.iface[0] == *f),
+                None => (false, vec![], vec![], false),
             };
             self.trace_call("recv", to, &res, json!({"src": port_of(&src), "first": first, "len": bytes.len(), "id": id, "orig": [orig.0, orig.1], "tag": orig.2, "odst": odst,
-                                                     "fk": fk, "fsrc": fsrc, "fdst": fdst}));
+                                                     "fk": fk, "fsrc": fsrc, "fdst": fdst, "same": same}));
         }
         res
     }
@@ -632,7 +632,7 @@ impl<P: Protocol> Sim<P> {
             if let Some((a, b)) = &parsed {
                 for d in &res.sent {
                     if d.tag == "data" {
-                        self.frames.insert(d.id, (a.clone(), b.clone()));
+                        self.frames.insert(d.id, (a.clone(), b.clone(), frame.to_vec()));
                     }
                 }
             }
